@@ -56,7 +56,8 @@ func (c *PContacts) More() bool {
 
 // Reset re-initializes the parsed values.
 func (c *PContacts) Reset() {
-	for i := 0; i < c.VNo(); i++ {
+	// <= : clear also a possible partially parsed value (Vals[N])
+	for i := 0; i <= c.N && i < len(c.Vals); i++ {
 		c.Vals[i].Reset()
 	}
 	v := c.Vals
